@@ -232,7 +232,8 @@ def sort_by_dimensionality(
             if cname_dim in dim_order:
                 return dim_order.index(cname_dim), cname
 
-        raise KeyError(f"Unit {unit_name} (aka {cname}) has no recognized dimensions")
+        # dimensions that are not listed in dim_order come last
+        return len(dim_order), cname
 
     return sorted(items, key=sort_key)
 
